@@ -332,6 +332,16 @@ pub fn exclude_of(pats: &[String]) -> conserve::Result<Exclude> {
     }
 }
 
+/// A subtree selection as an `Apath`: built with `From<&str>` or, as the command line does,
+/// by parsing the text (`FromStr`), alternating with the length of the path.
+pub fn apath_of(s: &str) -> Apath {
+    if s.len() % 2 == 0 {
+        s.parse::<Apath>().unwrap_or_else(|_| panic!("Apath::from_str rejects the well-formed path {s:?}"))
+    } else {
+        Apath::from(s)
+    }
+}
+
 pub fn create_archive(path: &Path) -> OpReport<()> {
     let path = path.to_owned();
     run_op(move |_m| async move { Archive::create_path(&path).await.map(|_| ()) })
@@ -479,7 +489,7 @@ pub fn restore(
         let a = Archive::open(transport(archive, hook)).await?;
         let options = RestoreOptions {
             exclude: exclude_of(exclude)?,
-            only_subtree: subtree.map(Apath::from),
+            only_subtree: subtree.map(apath_of),
             overwrite,
             band_selection: sel.policy(),
             change_callback: None,
@@ -500,7 +510,7 @@ pub fn list_entries(
     run_op(move |m| async move {
         let a = Archive::open(transport(archive, hook)).await?;
         let mut st = a
-            .iter_entries(sel.policy(), Apath::from(subtree), exclude_of(exclude)?, m)
+            .iter_entries(sel.policy(), apath_of(subtree), exclude_of(exclude)?, m)
             .await?;
         let mut out = Vec::new();
         while let Some(e) = st.next().await {
